@@ -101,6 +101,22 @@ func c03(r *core.Report, p *core.Prog, thorough bool) {
 					// the accept edge must reach a success exit without further conditions on nonce
 				}
 			}
+			// the comparison is unconditional: every success exit lies on its accept edge
+			okAll := true
+			whyAll := ""
+			for _, ret := range core.SuccessExits(vn) {
+				g := false
+				for _, f := range core.FactsAt(ret.Block()) {
+					if f.Cond == ssa.Value(c) && f.Taken == (c.Op == token.EQL) {
+						g = true
+					}
+				}
+				if !g {
+					okAll = false
+					whyAll = "success exit at " + p.Pos(ret.Pos()) + " is reachable without the nonce comparison having matched"
+				}
+			}
+			r.Check(okAll, "C03.shape", "validateNonce:comparison-on-every-accepting-path", p.Pos(c.Pos()), "no accepting path bypasses stateNonce + 1 == txnNonce (e.g. for a sender without a state entry); "+whyAll)
 			// stateNonce provenance: phi(0, s.Nonce) with s loaded for fromClient
 			if stNonce != nil {
 				roots := core.RootDescs(core.Slice(stNonce))
